@@ -66,8 +66,8 @@ def check(prop, tier, seed):
     run = Run(prop, tier, seed)
     quick = tier == "quick"
     # design
-    for name, kw in [("1 key, 3 commands, 1 fault", dict()), ("2 keys, 2 commands, 1 fault", dict(keys=2, maxcmds=2))] + \
-            ([] if quick else [("1 key, 4 commands", dict(maxcmds=4))]):
+    for name, kw in [("1 key, 3 commands, 1 fault", dict()), ("2 keys, 2 commands, 1 fault", dict(keys=2, maxcmds=2)), ("1 key, 4 commands, 1 fault", dict(maxcmds=4))] + \
+            ([] if quick else [("2 keys, 3 commands, 1 fault", dict(keys=2, maxcmds=3)), ("1 key, 5 commands, 1 fault", dict(maxcmds=5))]):
         res = run.tlc("OrcaFault", fcfg(**kw), timeout=2400)
         if res.violated:
             raise Infra("OrcaFault (%s) violates %s: specification bug" % (name, res.violated))
